@@ -342,7 +342,13 @@ def run_grouped(ctx):
                         table[('G%dS%d' % (gi, s), inputs[p])] = rng.choice([1, 1, 0.7])
                     elif rng.random() < 0.15:
                         table[('G%dS%d' % (gi, s), inputs[p])] = rng.choice([0.1, 1 / 3.])
-        inner = ListGrader(subgraders=lib.TableGrader(table=table, ids=True), ordered=inner_ordered)
+        # the group grader may carry answers of its own (it is a complete grader elsewhere in the course): inside a grouping it
+        # grades each group against the answer the outer grader hands it, never against those
+        own = {}
+        if rng.random() < 0.25:
+            own = {'answers': list(reversed(answers[rng.randrange(ngroups)]))}
+            ctx.count('grouped_calls_group_grader_with_own_answers')
+        inner = ListGrader(subgraders=lib.TableGrader(table=table, ids=True), ordered=inner_ordered, **own)
         g = ListGrader(answers=answers, subgraders=inner, ordered=outer_ordered, grouping=slots, debug=(i % 7 == 3))
         out = lib.call(ctx, g, None, list(inputs))
         ctx.ev()
